@@ -44,6 +44,13 @@ def jobs():
             js.append(Job("S2-retransmit@other%d-%s" % (other, "giveup" if gu else "resend"), "C06/c06.c", "c06_s2_retransmit", UNITS,
                           extra_src=EXTRA, defines=["OTHER=%d" % other] + (["WIT_GIVEUP"] if gu else []), unwind=18, group="S2", flags=FS,
                           timeout=900, desc="coap_retransmit one step (%d other queued message)" % other, bounds={"other_nodes": other}))
+    # S3r (c06_s3_timer_fire_real: timer scan with the REAL coap_retransmit, step arbitrarily late) is not registered: no verdict in 900 s
+    # a held Confirmable that is released is queued for retransmission (any message id, 0 included): C08's drain step
+    from jobs.C07 import CUT_CLIENT as _CC, RB_CLIENT as _RC, UNITS as _NU
+    js.append(Job("S7-released-held-is-queued", "C07/c07.c", "c08_s2_drain", _NU, extra_src=EXTRA, defines=["HELD=1"] + _CC, remove_bodies=_RC,
+                  unwind=18, flags=FS, group="S7", timeout=1500, est_gb=3,
+                  desc="coap_session_connected releasing one held message: a released Confirmable is queued for retransmission with its own timeout (every message id)",
+                  bounds={"held": 1, "mid": "0..65535"}))
     # single outcome on session failure; the in-flight case is known finding F-C06x (reported by this companion job)
     from jobs.C07 import CUT_CLIENT, RB_CLIENT
     js.append(Job("S6-disconnect-inflight", "C07/c07.c", "c08_s4_session_failure", UNITS + ["coap_uri.c", "coap_address.c"], extra_src=EXTRA,
